@@ -2922,7 +2922,7 @@ DESCRIPTION
 int32
 HPgetdiskblock(filerec_t *file_rec, int32 block_size, int moveto)
 {
-    uint8 temp;
+    uint8 temp      = 0; /* the byte that marks the end of the block: part of the element until overwritten */
     int32 ret_value = SUCCEED;
 
     /* check for valid arguments */
